@@ -28,7 +28,14 @@ def main():
             sys.exit(1)
         print('replay: property holds on this witness')
         sys.exit(0)
-    rc = mod.run(a.tier, seed)
+    try:
+        rc = mod.run(a.tier, seed)
+    except SystemExit:
+        raise
+    except BaseException:
+        import traceback
+        traceback.print_exc()
+        core.harness_error('check %s crashed (harness error, not a verdict)' % pid)
     sys.stdout.flush()
     sys.exit(rc)
 
